@@ -2,7 +2,7 @@
     proved under the guard "no mis-signed block transaction has a Hash() the mempool reports",
     and proved for the candidate repair (skip verification only on a FullHash() match). *)
 From Coq Require Import List ZArith NArith Bool Lia.
-From C33 Require Import C28.Model C28.Spec C28.Defs.
+From C33 Require Import C28.Model C28.Spec C28.Defs C28.ProofsGrp.
 Import ListNotations.
 Open Scope Z_scope.
 
@@ -54,10 +54,11 @@ Proof.
   intros c s b Hs Hb. unfold connect_self.
   destruct (negb (linked s b)); [exact Hs|].
   destruct (parent_time s >? b_time b); [exact Hs|].
-  destruct (filter (check_tx c (b_h b) (b_time b)) (check_dup s (b_txs b))) as [|k ks] eqn:E; [exact Hs|].
+  cbv zeta.
+  destruct (keep (exec_rc c (b_h b) (b_time b) (check_dup s (b_txs b))) (check_dup s (b_txs b))) as [|k ks] eqn:E; [exact Hs|].
   cbn [fst]. apply signed_attach; [exact Hs|].
   cbn [b_txs]. intros t Ht. rewrite <- E in Ht.
-  apply filter_In in Ht. destruct Ht as [Ht _].
+  apply keep_In in Ht.
   unfold check_dup in Ht. apply filter_In in Ht. destruct Ht as [Ht _].
   assert (Hd : forall l x, In x (del_dup l) -> In x l).
   { induction l as [|a l IH]; intros x Hx; [exact Hx|]. cbn [del_dup] in Hx.
@@ -76,7 +77,7 @@ Proof.
   destruct (negb (linked s b)); [exact Hs|].
   destruct (sig_stage pool (b_txs b)) eqn:Hsig; cbn [negb]; [|exact Hs].
   destruct (negb (Nat.eqb (length (check_dup s (b_txs b))) (length (b_txs b)))); [exact Hs|].
-  destruct (negb (forallb (check_tx c (b_h b) (b_time b)) (b_txs b))); [exact Hs|].
+  destruct (negb (all_true (exec_rc c (b_h b) (b_time b) (b_txs b)))); [exact Hs|].
   destruct (parent_time s >? b_time b); [exact Hs|].
   destruct (b_txs b) as [|t0 ts] eqn:E; [exact Hs|].
   cbn [fst]. apply signed_attach; [exact Hs|].
@@ -114,7 +115,7 @@ Qed.
     account's key and a signature that does not verify (same Hash id, FullHash id 2, CheckSign false) *)
 Definition w_cfg : cfg := mkCfg 2 3 100000 1000000000 33 100000 true.
 Definition w_gen : blk := mkBlk 1 0 0 1514533394 [].
-Definition w_forged : tx := mkTx 1 1 2 0 100000 237 33 false.
+Definition w_forged : tx := mkTx 1 1 2 0 100000 237 33 false 0 0 0.
 Definition w_ops : list op := [OPeer [1%N] (mkBlk 2 1 1 1514533395 [w_forged])].
 
 Theorem all_signed_refuted : ~ all_signed_full.
@@ -131,8 +132,8 @@ Proof. reflexivity. Qed.
 
 (** a non-trivial history satisfying both guards: a pooled transaction arrives in a block with
     its own valid signature, a producer block, a disconnection *)
-Definition g_t1 : tx := mkTx 1 1 1 0 100000 237 33 true.
-Definition g_t2 : tx := mkTx 2 2 2 (TxHeightFlag + 3) 100000 240 33 true.
+Definition g_t1 : tx := mkTx 1 1 1 0 100000 237 33 true 0 0 0.
+Definition g_t2 : tx := mkTx 2 2 2 (TxHeightFlag + 3) 100000 240 33 true 0 0 0.
 Definition g_ops : list op :=
   [OPeer [1%N] (mkBlk 2 1 1 1514533395 [g_t1]); OSelf (mkBlk 3 2 2 1514533396 [g_t2; g_t1]); ODisc;
    OPeer [] (mkBlk 4 2 2 1514533397 [g_t2])].
@@ -188,7 +189,7 @@ Proof.
   destruct (negb (linked s b)); [exact Hs|].
   destruct (negb (sig_stage (map th (b_txs b)) (b_txs b))); [exact Hs|].
   destruct (negb (Nat.eqb (length (check_dup s (b_txs b))) (length (b_txs b)))); [exact Hs|].
-  destruct (negb (forallb (check_tx c (b_h b) (b_time b)) (b_txs b))); [exact Hs|].
+  destruct (negb (all_true (exec_rc c (b_h b) (b_time b) (b_txs b)))); [exact Hs|].
   destruct (parent_time s >? b_time b); [exact Hs|].
   destruct (b_txs b) as [|t0 ts] eqn:E; [exact Hs|].
   cbn [fst]. apply signed_attach; [exact Hs|].
